@@ -602,6 +602,36 @@ theorem xclass_round_trip_example :
         | .error _ => false) = true := by
   decide
 
+/-! ### AnyOf over extension kinds -/
+
+/-- **AnyOf over extension kinds** (`AnyOf[DateField, Integer, None]`, `AnyOf[Enum by value, Integer]`, …): the value
+    is written by the option that owns it - not by the last non-None option -, read back by that option and stored
+    unchanged, provided the options listed before it are skipped by the serializer, the constructor and the
+    deserializer alike (`xFragAny`) -/
+theorem xanyof_round_trip_partial (XO : XOracles) (opts : DeserOpts) (xs : List XDecl) (v : PyVal)
+    (hf : xFragAny XO xs v = true) :
+    ∃ j, serX XO (.anyOf xs) v = .ok j ∧ isJson j = true
+      ∧ deserX XO opts false (.anyOf xs) j = .ok v ∧ validateX XO (.anyOf xs) v = .ok v := by
+  rcases xround_trip_any XO opts xs v hf with ⟨j, h1, h2, _, h4, h5⟩
+  exact ⟨j, by simpa [serX] using h1, h2, by simp [deserX, h4], by simpa [validateX] using h5⟩
+
+/-- non-vacuity, on the shape of a seeded change (an Optional union serialized through its LAST non-None option):
+    `when: AnyOf[DateField, Integer, None]` holding a date is written as the date's text, holding 3 as 3; both come back -/
+theorem xanyof_round_trip_example :
+    let u : XDecl := .anyOf [.temporal "date" "%Y-%m-%d" false, .base (.integer {}), .base .noneF]
+    let cls : XDecl := .struct { name := "Ev", required := [], accepts := ["Ev"], addl := false } [("when", u)]
+    xFrag exXO cls (.inst "Ev" [("when", .opaque "date:2020-01-31")]) = true
+    ∧ xFrag exXO cls (.inst "Ev" [("when", .int 3)]) = true
+    ∧ (match serializeX exXO cls (.inst "Ev" [("when", .opaque "date:2020-01-31")]) with
+        | .ok (.dict [(.str "when", .str "2020-01-31")]) => true | _ => false) = true
+    ∧ (match deserializeX exXO {} cls (.dict [(.str "when", .str "2020-01-31")]) with
+        | .ok (.inst "Ev" [("when", .opaque "date:2020-01-31")]) => true | _ => false) = true
+    ∧ (match serializeX exXO cls (.inst "Ev" [("when", .int 3)]) with
+        | .ok (.dict [(.str "when", .int 3)]) => true | _ => false) = true
+    ∧ (match deserializeX exXO {} cls (.dict [(.str "when", .int 3)]) with
+        | .ok (.inst "Ev" [("when", .int 3)]) => true | _ => false) = true := by
+  decide
+
 /-! ### compact single-field wrappers -/
 
 /-- **C05, compact single-field wrappers**: a class with exactly one field, required, additional properties off,
